@@ -104,13 +104,10 @@ def jnum(x):
     return r
 
 
-def rand_double(rng):
+def rand_double_raw(rng):
     k = rng.random()
     if k < 0.35:
-        while True:
-            b = rng.getrandbits(64)
-            if is_finite_bits(b):
-                return fb(b)
+        return fb(rng.getrandbits(64))
     if k < 0.55:
         return float(rng.randrange(-100, 100))
     if k < 0.7:
@@ -118,8 +115,17 @@ def rand_double(rng):
     if k < 0.8:
         return float(rng.randrange(-2 ** 54, 2 ** 54))
     if k < 0.9:
-        return math.ldexp(rng.uniform(1, 2), rng.choice([-1074, -1030, -1022, -600, -1, 0, 52, 53, 511, 512, 1000, 1023]) - (1 if rng.random() < .3 else 0)) * rng.choice([1, -1]) if True else 0.0
+        e = rng.choice([-1074, -1030, -1022, -600, -1, 0, 52, 53, 511, 512, 1000, 1023]) - (1 if rng.random() < .3 else 0)
+        return math.ldexp(rng.uniform(1, 2), e) * rng.choice([1, -1])
     return rng.choice(BOUNDARY) * rng.choice([1.0, -1.0, 0.5, 2.0, 1.0000000000000002])
+
+
+def rand_double(rng):
+    """a finite double: random bit patterns, small integers, reals, extreme exponents, near-boundary"""
+    while True:
+        x = rand_double_raw(rng)
+        if not (math.isinf(x) or math.isnan(x)):
+            return x
 
 
 def pick(rng, pb):
@@ -213,7 +219,7 @@ CORPUS_LITERALS = [
 def py_literal_value(text):
     """('ok', bits) | ('overflow',) | ('lexerr',) from an independent reading of the text."""
     t = text
-    if not re.fullmatch(r"[0-9](_?[0-9])*(_?\.[0-9](_?[0-9])*)?(_?[eE][+-]?[0-9](_?[0-9])*)?", t):
+    if not re.fullmatch(r"[0-9](_?[0-9])*(\.[0-9](_?[0-9])*)?([eE][+-]?[0-9](_?[0-9])*)?", t):
         return ("lexerr",)
     if re.match(r"0_?[0-9]", t):
         return ("lexerr",)
@@ -249,6 +255,15 @@ def sig_digits(text):
     m = re.fullmatch(r"([0-9]*)\.?([0-9]*)(?:[eE][+-]?[0-9]+)?", t)
     d = (m.group(1) + m.group(2)).lstrip("0").rstrip("0")
     return d
+
+
+def panic_key(out):
+    """canonical key of a panic: its source location + message (independent of the input)"""
+    w = out.split(" ")
+    msg = vlib.unhx(w[1]).decode("utf-8", "replace") if len(w) > 1 and w[0] == "panic" else out
+    m = re.search(r"src/([^\s:]+:[0-9]+)", msg)
+    tail = msg.strip().split("\n")[-1][:60]
+    return "panic:%s:%s" % (m.group(1) if m else "?", tail)
 
 
 def run_extractor(rep):
@@ -413,12 +428,16 @@ def run(rep):
         if t and t[0].isdigit():
             lits.append(t)
     lseen = set()
+    curated = set(CORPUS_LITERALS)
     for t in lits:
         if t in lseen:
             continue
         lseen.add(t)
-        add("num lit " + vlib.hx(t), kind="lit", text=t)
-        add("num litvalue " + vlib.hx(t), kind="litvalue", text=t)
+        # as a whole program only texts that are one literal (or a curated malformed one):
+        # a generated malformed text may be a valid expression such as `0E+29+9`
+        if t in curated or py_literal_value(t)[0] != "lexerr":
+            add("num lit " + vlib.hx(t), kind="lit", text=t)
+            add("num litvalue " + vlib.hx(t), kind="litvalue", text=t)
         tail = rng.choice(["", "", " ", "+x", "x", ".e", "_", ")", " 01"])
         add("num lex " + vlib.hx(t + tail), kind="lex", text=t + tail)
 
@@ -481,7 +500,7 @@ def run(rep):
         rep.bump(kind)
         key = c["line"]
         if a.startswith("panic") or a.startswith("crash"):
-            rep.violation("panic:" + key, "implementation panicked: " + a[:200], {"op": c["line"], "impl": a[:500]})
+            rep.violation(panic_key(a), "implementation panicked: " + a[:200], {"op": c["line"], "impl": a[:500]})
             continue
         if a == "bad-op" or m == "bad-op" or m.startswith("crash"):
             rep.disagreement(key, "driver rejected the request", {"case": c, "impl": a[:300], "model": m[:300]})
@@ -599,7 +618,7 @@ def run(rep):
         exp = e["expect"]
         rpl = {"op": line, "src": e["src"], "impl": out[:400]}
         if r[0] in ("panic", "crash"):
-            rep.violation("panic:" + e["src"], "implementation panicked on %s" % e["src"][:100], rpl)
+            rep.violation(panic_key(out), "implementation panicked on %s" % e["src"][:100], rpl)
             continue
         if r[0] == "err":
             if not exp.startswith("err") or exp.split(" ")[1] != r[2]:
@@ -651,13 +670,16 @@ def run(rep):
             rep.violation("print:" + line, "printed number %r has unexpected shape %s" % (x, t[:60]), rpl)
             continue
         try:
-            back = float(Fraction(t)) if len(t) < 800 else float(t)
+            back = float(t)   # CPython's float() is correctly rounded for any length
         except Exception:  # noqa
             back = None
         if back is None or bits(back) != bits(x):
             rep.violation("print-rt:" + line, "printed text of %r does not read back as the same double: %s" % (x, t[:60]), rpl)
             continue
-        if sig_digits(t) != sig_digits(repr(x)):
+        # shortest: as many significant digits as Python's repr (David Gay's shortest round-trip
+        # digits) and at least as close to x (on an exact tie both neighbours are admissible)
+        if len(sig_digits(t)) != len(sig_digits(repr(x))) or \
+                abs(Fraction(t) - Fraction(x)) > abs(Fraction(repr(x)) - Fraction(x)):
             rep.violation("print-shortest:" + line, "printed text of %r is not the shortest round-trip decimal: %s vs %s"
                           % (x, t[:40], repr(x)), rpl)
         sh_cases.append({"key": line, "line": "num shortest %s %s" % (hb(x), vlib.hx(t))})
@@ -747,7 +769,8 @@ def run(rep):
                 "std.parseJson('-0')", "std.manifestJson(-0.0)", "std.count([1e308*2], 1)", "std.clamp(1e308*2, 0, 1)",
                 "std.mod(1e308, 1e-308)", "1e308 %% 1e-308", "std.exponent(1e308) + std.mantissa(1e308)", "std.pi * 1e308",
                 "std.pow(std.pi, 1e3)", "std.sum(std.makeArray(3, function(i) 1e308))", "std.avg(std.makeArray(3, function(i) -1e308))",
-                "std.round(1e308 * 1.5)", "-(-1.7976931348623157e308) * 2", "std.deg2rad(1e308) * 1e3"]:
+                "std.round(1e308 * 1.5)", "std.flatMap(function(a, b) a + b, [1, 2])", "std.map(std.pow, [1])",
+                "-(-1.7976931348623157e308) * 2", "std.deg2rad(1e308) * 1e3"]:
         gl.append(("expr", src.replace("%%", "%")))
     gen_lines = ["num eval " + vlib.hx(src) for _, src in gl]
     gen_out = vlib.impl(gen_lines)
@@ -757,7 +780,7 @@ def run(rep):
         rep.count(line, True, sample={"src": src[:100], "impl": out[:40]} if rng.random() < 0.004 else None)
         rpl = {"op": line, "src": src, "impl": out[:400]}
         if out.startswith("panic") or out.startswith("crash"):
-            rep.violation("panic:" + src, "implementation panicked on %s" % src[:100], rpl)
+            rep.violation(panic_key(out), "implementation panicked on %s" % src[:100], rpl)
         elif out.startswith("ok "):
             if not is_finite_bits(int(out[3:], 16)):
                 rep.violation("nonfinite:" + src, "%s yields a non-finite number (%s)" % (src[:100], out), rpl)
@@ -768,7 +791,7 @@ def run(rep):
         r = vlib.parse_eval(out)
         rpl = {"op": line, "src": src, "impl": out[:400]}
         if r[0] in ("panic", "crash"):
-            rep.violation("panic:" + src, "implementation panicked on %s" % src[:100], rpl)
+            rep.violation(panic_key(out), "implementation panicked on %s" % src[:100], rpl)
         elif r[0] == "ok":
             # number tokens outside strings
             body = re.sub(r'"(\\.|[^"\\])*"', '""', r[1])
